@@ -338,6 +338,11 @@ func newRuntimeState(compiled config.Compiled) *runtimeState {
 func (s *runtimeState) updateAll(compiled config.Compiled) {
 	s.mu.Lock()
 	defer s.mu.Unlock()
+	s.updateAllLocked(compiled)
+}
+
+// updateAllLocked requires s.mu to be held for writing.
+func (s *runtimeState) updateAllLocked(compiled config.Compiled) {
 	s.routes = compiled.Routes
 	s.pathToRoute = compiled.PathToRoute
 	s.trendSignals = compiled.Defaults.TrendSignals
@@ -857,12 +862,73 @@ func queueTrendSignalConfigFromCompiled(in config.TrendSignalsConfig) queue.Back
 	}
 }
 
+// loadedAuth is everything loadAuth derives from a compiled configuration,
+// built completely before any of it becomes visible to requests.
+type loadedAuth struct {
+	pullAuthorize   pullapi.Authorizer
+	workerAuthorize workerapi.Authorizer
+	adminAuthorize  admin.Authorizer
+	pullByRoute     map[string]pullapi.Authorizer
+	workerByRoute   map[string]workerapi.Authorizer
+	basicByRoute    map[string]*ingress.BasicAuth
+	forwardByRoute  map[string]*ingress.ForwardAuth
+	hmacByRoute     map[string]*ingress.HMACAuth
+}
+
 func (s *runtimeState) loadAuth(compiled config.Compiled) error {
+	loaded, err := s.buildAuth(compiled)
+	if err != nil {
+		return err
+	}
+	s.mu.Lock()
+	s.applyAuthLocked(loaded)
+	s.mu.Unlock()
+	verifhook.Point("reload.auth_swapped")
+	return nil
+}
+
+// applyConfig makes a reloaded configuration visible in one step: the
+// authenticators and the route table are swapped under a single write lock,
+// so no request can see the new authenticators with the old routes or vice
+// versa. Nothing changes when the secrets cannot be loaded.
+func (s *runtimeState) applyConfig(compiled config.Compiled) error {
+	loaded, err := s.buildAuth(compiled)
+	if err != nil {
+		return err
+	}
+	s.mu.Lock()
+	s.applyAuthLocked(loaded)
+	s.updateAllLocked(compiled)
+	s.mu.Unlock()
+	return nil
+}
+
+// applyAuthLocked requires s.mu to be held for writing.
+func (s *runtimeState) applyAuthLocked(loaded *loadedAuth) {
+	s.pullAuthorize = loaded.pullAuthorize
+	s.workerAuthorize = loaded.workerAuthorize
+	s.adminAuthorize = loaded.adminAuthorize
+	s.pullByRoute = loaded.pullByRoute
+	s.workerByRoute = loaded.workerByRoute
+	s.basicByRoute = loaded.basicByRoute
+	s.forwardByRoute = loaded.forwardByRoute
+	for path, old := range s.hmacByRoute {
+		if old != nil && loaded.hmacByRoute[path] == nil {
+			if s.retiredHMACByRoute == nil {
+				s.retiredHMACByRoute = make(map[string]*ingress.HMACAuth)
+			}
+			s.retiredHMACByRoute[path] = old
+		}
+	}
+	s.hmacByRoute = loaded.hmacByRoute
+}
+
+func (s *runtimeState) buildAuth(compiled config.Compiled) (*loadedAuth, error) {
 	tokens := make([][]byte, 0, len(compiled.PullAPI.AuthTokens))
 	for _, ref := range compiled.PullAPI.AuthTokens {
 		b, err := secrets.LoadRef(ref)
 		if err != nil {
-			return fmt.Errorf("pull_api auth token %q: %w", ref, err)
+			return nil, fmt.Errorf("pull_api auth token %q: %w", ref, err)
 		}
 		tokens = append(tokens, b)
 	}
@@ -871,7 +937,7 @@ func (s *runtimeState) loadAuth(compiled config.Compiled) error {
 	for _, ref := range compiled.AdminAPI.AuthTokens {
 		b, err := secrets.LoadRef(ref)
 		if err != nil {
-			return fmt.Errorf("admin_api auth token %q: %w", ref, err)
+			return nil, fmt.Errorf("admin_api auth token %q: %w", ref, err)
 		}
 		adminTokens = append(adminTokens, b)
 	}
@@ -880,7 +946,7 @@ func (s *runtimeState) loadAuth(compiled config.Compiled) error {
 	for id, sc := range compiled.Secrets {
 		b, err := secrets.LoadRef(sc.ValueRef)
 		if err != nil {
-			return fmt.Errorf("secret %q value %q: %w", id, sc.ValueRef, err)
+			return nil, fmt.Errorf("secret %q value %q: %w", id, sc.ValueRef, err)
 		}
 		secretVersions[id] = secrets.Version{
 			ID:         id,
@@ -900,7 +966,7 @@ func (s *runtimeState) loadAuth(compiled config.Compiled) error {
 		for _, ref := range rt.Pull.AuthTokens {
 			b, err := secrets.LoadRef(ref)
 			if err != nil {
-				return fmt.Errorf("route %q pull auth token %q: %w", rt.Path, ref, err)
+				return nil, fmt.Errorf("route %q pull auth token %q: %w", rt.Path, ref, err)
 			}
 			routeTokens = append(routeTokens, b)
 		}
@@ -941,7 +1007,7 @@ func (s *runtimeState) loadAuth(compiled config.Compiled) error {
 		for _, ref := range rt.AuthHMACSecrets {
 			b, err := secrets.LoadRef(ref)
 			if err != nil {
-				return fmt.Errorf("route %q auth hmac secret %q: %w", rt.Path, ref, err)
+				return nil, fmt.Errorf("route %q auth hmac secret %q: %w", rt.Path, ref, err)
 			}
 			secs = append(secs, b)
 		}
@@ -955,7 +1021,7 @@ func (s *runtimeState) loadAuth(compiled config.Compiled) error {
 			seenRefs[ref] = struct{}{}
 			v, ok := secretVersions[ref]
 			if !ok {
-				return fmt.Errorf("route %q auth hmac secret_ref %q not found", rt.Path, ref)
+				return nil, fmt.Errorf("route %q auth hmac secret_ref %q not found", rt.Path, ref)
 			}
 			versions = append(versions, v)
 		}
@@ -980,7 +1046,7 @@ func (s *runtimeState) loadAuth(compiled config.Compiled) error {
 		if len(versions) > 0 {
 			set := secrets.Set{Versions: versions}
 			if err := set.Validate(); err != nil {
-				return fmt.Errorf("route %q auth hmac secret_ref invalid: %w", rt.Path, err)
+				return nil, fmt.Errorf("route %q auth hmac secret_ref invalid: %w", rt.Path, err)
 			}
 			auth.SelectSecrets = func(at time.Time) [][]byte {
 				valid := set.ValidAt(at)
@@ -997,26 +1063,16 @@ func (s *runtimeState) loadAuth(compiled config.Compiled) error {
 		hmacByRoute[rt.Path] = auth
 	}
 
-	s.mu.Lock()
-	s.pullAuthorize = pullapi.BearerTokenAuthorizer(tokens)
-	s.workerAuthorize = workerapi.BearerTokenAuthorizer(tokens)
-	s.adminAuthorize = admin.BearerTokenAuthorizer(adminTokens)
-	s.pullByRoute = pullByRoute
-	s.workerByRoute = workerByRoute
-	s.basicByRoute = basicByRoute
-	s.forwardByRoute = forwardByRoute
-	for path, old := range s.hmacByRoute {
-		if old != nil && hmacByRoute[path] == nil {
-			if s.retiredHMACByRoute == nil {
-				s.retiredHMACByRoute = make(map[string]*ingress.HMACAuth)
-			}
-			s.retiredHMACByRoute[path] = old
-		}
-	}
-	s.hmacByRoute = hmacByRoute
-	s.mu.Unlock()
-	verifhook.Point("reload.auth_swapped")
-	return nil
+	return &loadedAuth{
+		pullAuthorize:   pullapi.BearerTokenAuthorizer(tokens),
+		workerAuthorize: workerapi.BearerTokenAuthorizer(tokens),
+		adminAuthorize:  admin.BearerTokenAuthorizer(adminTokens),
+		pullByRoute:     pullByRoute,
+		workerByRoute:   workerByRoute,
+		basicByRoute:    basicByRoute,
+		forwardByRoute:  forwardByRoute,
+		hmacByRoute:     hmacByRoute,
+	}, nil
 }
 
 func startBacklogTrendCapture(ctx context.Context, trendStore queue.BacklogTrendStore, logger *slog.Logger) {
@@ -1146,12 +1202,11 @@ func reloadConfig(path string, running config.Compiled, state *runtimeState, log
 		return running, false
 	}
 
-	if err := state.loadAuth(compiled); err != nil {
+	if err := state.applyConfig(compiled); err != nil {
 		logger.Error("config_reload_failed", slog.Any("err", err), slog.String("trigger", trigger))
 		return running, false
 	}
-	state.updateAll(compiled)
-	verifhook.Point("reload.routes_swapped")
+	verifhook.Point("reload.swapped")
 
 	logger.Info("config_reloaded_ok", slog.String("trigger", trigger))
 	return compiled, true
